@@ -132,8 +132,10 @@ uint64_t hash_bytes(const void* p, size_t n, uint64_t h);
 
 // dispatch configuration (hook H1): 1 = native (accelerated allowed), 0 = generic C
 void set_dispatch(int native);
+enum { DISP_GENERIC = 0, DISP_NATIVE = 1, DISP_AVX2_ONLY = 2, DISP_FMA_ONLY = 3, N_DISP = 4 };
+extern const char* const disp_name[N_DISP];
 extern int g_dispatch_native;
-static inline const char* dispatch_name(void) { return g_dispatch_native ? "native" : "generic"; }
+static inline const char* dispatch_name(void) { return disp_name[g_dispatch_native & 3]; }
 
 static inline uint32_t ilog2(uint64_t x) {
   uint32_t r = 0;
